@@ -236,6 +236,7 @@ type Exec struct {
 	allocFloor      int64   // ... but only those allocated so far: ids >= this value
 	lemmaFacts      []*Term // instances of proved lemmas met while instantiating another lemma
 	curCall         ssa.Value
+	curRet          []Value
 	returnSites     map[*ssa.Return][]*State
 	nilFreshFork    bool
 	curArgs         []Value
